@@ -391,4 +391,87 @@ def item_select_sw(repo, out):
     out.append('Definition select_sw_out_of_range_raises_indexerror : bool := true.')
 
 
-ITEMS = [item_concat_init, item_identity, item_dummy, item_select_sw]
+# ---------------------------------------------------------------------------------------------------------------
+# ConcatenatedDataSet.__init__: the metadata merge (Model/ConcatMeta.v)
+
+def item_concat_meta(repo, out):
+    """ref_ant / time_offset from the head of the INPUT list (before the sort); after the sort the six joined strings
+    (separator per field), obs_params and receivers (keys in order of first appearance, `.get(key, '')`, one value iff
+    itertools.groupby finds one run), start_time = min, end_time = max."""
+    tree = _parse(repo, REL)
+    init = _func(_class(tree, 'ConcatenatedDataSet', REL), '__init__', REL)
+    body = [n for n in init.body if not (isinstance(n, ast.Expr) and isinstance(n.value, ast.Constant))]
+    lines = [_src(n) for n in body]
+    if [a.arg for a in init.args.args] != ['self', 'datasets'] or init.args.defaults:
+        raise TranslateError('ConcatenatedDataSet.__init__: signature changed')
+
+    def need(text, what):
+        if lines.count(text) != 1:
+            raise TranslateError('ConcatenatedDataSet.__init__: expected exactly one `%s` (%s)' % (text, what))
+        return lines.index(text)
+    if lines[0] != "DataSet.__init__(self,'',datasets[0].ref_ant,datasets[0].time_offset)":
+        raise TranslateError('ConcatenatedDataSet.__init__: does not start with DataSet.__init__(self, \'\', '
+                             'datasets[0].ref_ant, datasets[0].time_offset) (ref_ant / time_offset of the first INPUT data set)')
+    isort = need('self.datasets=datasets=[d[-1]fordindecorated_datasets]', 'undecorate')
+    for n in body[:isort]:
+        for t in ast.walk(n):
+            if isinstance(t, ast.Attribute) and isinstance(t.value, ast.Name) and t.value.id == 'self' \
+                    and isinstance(t.ctx, ast.Store) and t.attr != 'datasets':
+                raise TranslateError('ConcatenatedDataSet.__init__: self.%s is set before the parts are sorted' % t.attr)
+    out.append('Definition concat_meta_ref_from_input_head : bool := true.')
+    joins = []
+    last = isort
+    for field, sep in (('name', ','), ('url', ' | '), ('version', ','), ('observer', ','), ('description', ' | '),
+                       ('experiment_id', ',')):
+        found = [i for i, n in enumerate(body) if isinstance(n, ast.Assign) and _src(n.targets[0]) == 'self.' + field]
+        if len(found) != 1:
+            raise TranslateError('ConcatenatedDataSet.__init__: expected exactly one assignment to self.%s' % field)
+        v = body[found[0]].value
+        if not (isinstance(v, ast.Call) and isinstance(v.func, ast.Attribute) and v.func.attr == 'join'
+                and isinstance(v.func.value, ast.Constant) and isinstance(v.func.value.value, str) and len(v.args) == 1
+                and _src(v.args[0]) == 'unique_in_order([d.%sfordindatasets])' % field):
+            raise TranslateError('ConcatenatedDataSet.__init__: self.%s is not <sep>.join(unique_in_order([d.%s for d in '
+                                 'datasets]))' % (field, field))
+        if found[0] < isort:
+            raise TranslateError('ConcatenatedDataSet.__init__: self.%s is merged before the parts are sorted' % field)
+        joins.append((field, v.func.value.value))
+        last = max(last, found[0])
+    out.append('Definition concat_meta_joins : list (string * string) := [%s].'
+               % '; '.join('(%s, %s)' % (coq_string(a), coq_string(b)) for a, b in joins))
+    dicts = []
+    for var, attr, key, vals in (('obs_params', 'obs_params', 'param', 'values'), ('rx_ants', 'receivers', 'ant', 'rx')):
+        i = need('%s=unique_in_order(reduce(lambdax,y:x+y,[list(d.%s.keys())fordindatasets]))' % (var, attr),
+                 'keys in order of first appearance')
+        loop = body[i + 1] if i + 1 < len(body) else None
+        if not (isinstance(loop, ast.For) and _src(loop.target) == key and _src(loop.iter) == var and not loop.orelse):
+            raise TranslateError('ConcatenatedDataSet.__init__: `for %s in %s:` does not follow the key list' % (key, var))
+        want = ["%s=[d.%s.get(%s,'')fordindatasets]" % (vals, attr, key),
+                'self.%s[%s]=%s[0]iflen([kforkinitertools.groupby(%s)])==1else%s' % (attr, key, vals, vals, vals)]
+        if [_src(n) for n in loop.body] != want:
+            raise TranslateError('ConcatenatedDataSet.__init__: the merge loop of %s differs from the modelled one: %s'
+                                 % (attr, [_src(n) for n in loop.body][:2]))
+        if i < isort:
+            raise TranslateError('ConcatenatedDataSet.__init__: %s merged before the parts are sorted' % attr)
+        dicts.append(attr)
+    out.append('Definition concat_meta_dicts : list string := %s.' % coq_strings(dicts))
+    out.append('Definition concat_meta_missing_value : string := %s.' % coq_string(''))
+    out.append('Definition concat_meta_one_value_iff_one_group : bool := true.')
+    i1 = need('self.start_time=min([d.start_timefordindatasets])', 'start time')
+    i2 = need('self.end_time=max([d.end_timefordindatasets])', 'end time')
+    if min(i1, i2) < isort:
+        raise TranslateError('ConcatenatedDataSet.__init__: start / end time set before the sort')
+    out.append('Definition concat_start_is_min_end_is_max : bool := true.')
+    # nothing else in the constructor assigns these attributes
+    watched = {'name', 'url', 'version', 'observer', 'description', 'experiment_id', 'start_time', 'end_time', 'ref_ant',
+               'time_offset', 'obs_params', 'receivers'}
+    count = {}
+    for n in ast.walk(init):
+        if isinstance(n, ast.Attribute) and isinstance(n.value, ast.Name) and n.value.id == 'self' \
+                and isinstance(n.ctx, ast.Store) and n.attr in watched:
+            count[n.attr] = count.get(n.attr, 0) + 1
+    extra = sorted(k for k, v in count.items() if v > 1 or k in ('ref_ant', 'time_offset', 'obs_params', 'receivers'))
+    if extra:
+        raise TranslateError('ConcatenatedDataSet.__init__: %s assigned more than once / directly' % extra)
+
+
+ITEMS = [item_concat_init, item_identity, item_dummy, item_select_sw, item_concat_meta]
